@@ -71,6 +71,9 @@ def ofHexAux : List Char → Bytes → Option Bytes
 def ofHex (s : String) : Option Bytes :=
   if s = "-" then some [] else ofHexAux s.toList []
 
+/-- hex for driver output: the empty string is printed as `-` -/
+def hx (bs : Bytes) : String := if bs.isEmpty then "-" else toHex bs
+
 def w32hex (w : W32) : String := toHex (w32bytes w)
 
 end Gmsm
